@@ -484,10 +484,61 @@ fn revisit(w: &mut Worker) {
     }
 }
 
+/// Every sentence of 3..5 (thorough 6) tokens, and the same words with every run of two or more of them
+/// held in ONE variable (a value with blanks in it - a single, truthy atom), evaluated in one run in both
+/// orders and once more: each reading gives its own value, whatever was evaluated before it.
+fn same_words_grouped(w: &mut Worker) {
+    let lmax = w.tier.pick(5usize, 6usize);
+    let sentences = Sentences::upto(lmax);
+    for n in 3..=lmax {
+        for seq in &sentences.cond[n] {
+            let toks = spell(seq, "1", "0");
+            let plain = match ref_eval(&toks) {
+                Some(v) => v,
+                None => continue,
+            };
+            for i in 0..n {
+                for j in (i + 2)..=n {
+                    if j - i == n && n > 3 {
+                        continue; // the whole statement in one variable is the one-token case of revisit()
+                    }
+                    let span = toks[i..j].join(" ");
+                    let mut grouped: Vec<String> = toks[..i].to_vec();
+                    grouped.push(span.clone());
+                    grouped.extend(toks[j..].iter().cloned());
+                    if grouped.len() < 2 {
+                        continue;
+                    }
+                    let gval = match ref_eval(&grouped) {
+                        Some(v) => v,
+                        None => continue,
+                    };
+                    let mut written: Vec<String> = toks[..i].to_vec();
+                    written.push("${v}".to_string());
+                    written.extend(toks[j..].iter().cloned());
+                    for plain_first in [true, false] {
+                        let g = |out: &str| format!("{} = not {}", out, written.join(" "));
+                        let p = |out: &str| format!("{} = not {}", out, toks.join(" "));
+                        let text = if plain_first { format!("v = set \"{}\"\n{}\n{}\n{}", span, p("p1"), g("g1"), p("p2")) } else { format!("v = set \"{}\"\n{}\n{}\n{}", span, g("g1"), p("p1"), g("g2")) };
+                        let mut expect: Vec<(&str, Option<String>)> = vec![("p1", Some((!plain).to_string())), ("g1", Some((!gval).to_string()))];
+                        if plain_first {
+                            expect.push(("p2", Some((!plain).to_string())));
+                        } else {
+                            expect.push(("g2", Some((!gval).to_string())));
+                        }
+                        scale_case(w, &format!("same-words-grouped {:?} span {}..{} {}", toks.join(" "), i, j, if plain_first { "plain-first" } else { "grouped-first" }), &text, &expect);
+                    }
+                }
+            }
+        }
+    }
+}
+
 pub fn worker(w: &mut Worker) {
     let tier = w.tier;
     scale(w);
     history(w);
+    same_words_grouped(w);
     revisit(w);
     let rig = Rig::new();
     // pass 1: grammar sentences with true/false, generated from the (unambiguous) grammar by length
@@ -616,7 +667,7 @@ pub fn crash_sig(_case: &Value, kind: &str) -> String {
     kind.to_string()
 }
 
-pub const RULE: &str = "every token sequence up to the length bound over {T,F,and,or,(,)} that the grammar cond := disj ('and' disj)* ; disj := atom ('or' atom)* ; atom := value | '(' cond? ')' accepts, spelled with true/false, through each of not (run_instruction), if, elseif, while (scripts with marker commands); then the truthiness pool (all 2^n case variants of false/no/true/yes and 27 other values, among them values that start or end with a parenthesis) in 6 statement frames; then a command in condition position handing back each value of that pool and the words and, or, (, ), not, 'true and false', 'false or true', '( false )' as its output (one value, judged by the truthiness table); then all sentences up to the second bound with 5x5 truthy/falsy spellings. Oracle: recursive-descent reference evaluator. A case is (statement, consumer); non-trivial when the statement has an operator or group; states = distinct (consumer, value, length) classes; transitions = real evaluations. Scale cases: conjunctions, disjunctions and sequences of groups with 50/300 (thorough 3000) operands, groups nested 10/60 (thorough 400) deep, each with its value flipped by the last operand, through all four consumers The truthiness pool also has every case variant of and / or / not other than the lower-case one, and 33 words that are keywords or operators elsewhere (then, do, fi, &&, ==, -a ...): all ordinary truthy values History: 70 / 300 / 1000 (thorough 20000) conditions of one kind (well-formed, malformed, failing command, unknown command, failing if, mixed) in one run, then not / if / elseif / while are judged as on a fresh state. Revisit: 300 / 5000 (thorough 70000) distinct statements evaluated in three passes; five word sequences evaluated as one value and as a statement in one run, in both orders. The pool holds 13 values that read like whole statements";
+pub const RULE: &str = "every token sequence up to the length bound over {T,F,and,or,(,)} that the grammar cond := disj ('and' disj)* ; disj := atom ('or' atom)* ; atom := value | '(' cond? ')' accepts, spelled with true/false, through each of not (run_instruction), if, elseif, while (scripts with marker commands); then the truthiness pool (all 2^n case variants of false/no/true/yes and 27 other values, among them values that start or end with a parenthesis) in 6 statement frames; then a command in condition position handing back each value of that pool and the words and, or, (, ), not, 'true and false', 'false or true', '( false )' as its output (one value, judged by the truthiness table); then all sentences up to the second bound with 5x5 truthy/falsy spellings. Oracle: recursive-descent reference evaluator. A case is (statement, consumer); non-trivial when the statement has an operator or group; states = distinct (consumer, value, length) classes; transitions = real evaluations. Scale cases: conjunctions, disjunctions and sequences of groups with 50/300 (thorough 3000) operands, groups nested 10/60 (thorough 400) deep, each with its value flipped by the last operand, through all four consumers The truthiness pool also has every case variant of and / or / not other than the lower-case one, and 33 words that are keywords or operators elsewhere (then, do, fi, &&, ==, -a ...): all ordinary truthy values History: 70 / 300 / 1000 (thorough 20000) conditions of one kind (well-formed, malformed, failing command, unknown command, failing if, mixed) in one run, then not / if / elseif / while are judged as on a fresh state. Revisit: 300 / 5000 (thorough 70000) distinct statements evaluated in three passes; five word sequences evaluated as one value and as a statement in one run, in both orders. The pool holds 13 values that read like whole statements Same words grouped: every sentence of 3..5 (thorough 6) tokens over {1, 0, and, or, parentheses} and the same words with every run of two or more of them held in one variable (a single truthy atom), evaluated under not in one run in both orders and once more: each reading gives its own value.";
 pub const ASSUMPTIONS: &[&str] = &["atoms that are names of registered commands are excluded (they are dispatched as commands)", "ill-formed statements are not constrained"];
 pub const EXHAUSTIVE: bool = true;
 pub const WALL_CAP_S: (u64, u64) = (50, 1500);
